@@ -16,9 +16,12 @@ SHAPES = "class Circle:\n    pass\n\nclass Square:\n    pass\n\nSIDE = 4\n"
 OTHER = "class Thing:\n    pass\n"
 TYPINGISH = "class Helper:\n    pass\n"      # a user module whose *name* starts with `typing`: not the typing module
 BODY = "\n\ndef area(c, k=1):\n    return k\n\n\ndef make():\n    return None\n\n\nRESULT = area(None)\n"
+VERBATIM = {"parenthesised-with-comments"}
 SOURCES = {
     "plain": "" + BODY,
     "docstring": '"""Module docstring."""\n' + BODY,
+    # layout and comments inside a source import statement from which nothing moves must survive (the statement "stays where it was", as written)
+    "parenthesised-with-comments": "from os.path import (\n    join,  # noqa: F401\n    split,  # type: ignore\n)\nimport os, sys  # both needed\nimport shapes16\n" + BODY + "\nSIDE2 = shapes16.SIDE\n",
     "imports-top": "import os\nimport shapes16\n" + BODY + "\nSIDE2 = shapes16.SIDE\n",
     "from-import": "from shapes16 import Square\n" + BODY + "\nSQ = Square\n",
     "alias": "from shapes16 import Circle as C\n" + BODY + "\nALIASED = C\n",
@@ -104,6 +107,12 @@ def run(ctx):
             for stmt, tc, depth in before:
                 if (stmt, tc, depth) not in after and not stmt.startswith("from __future__"):
                     problems.append("source import `%s` is gone / moved" % stmt)
+            if sn in VERBATIM:
+                for node in ast.parse(src).body:
+                    if isinstance(node, (ast.Import, ast.ImportFrom)) and getattr(node, "module", None) not in ("typing", "__future__"):
+                        seg = "\n".join(src.splitlines()[node.lineno - 1:node.end_lineno])
+                        if seg not in out:
+                            problems.append("source import statement rewritten (layout / comments lost): %r" % seg[:80])
             stub_imports = [s for s, _, _ in import_facts(ast.parse(stub))]
             src_imports = {s for s, _, _ in before}
             readded = []
